@@ -367,6 +367,15 @@ def joint_unit(job, seed, count, plan_len, n_corr):
     out = {"failing": [], "configs": [], "comparisons": 0, "levels": {}, "axis": "joint", "job": job}
     for i in range(count):
         cfg = {a: rng.randint(lo, hi) for a, (lo, hi) in AXES.items()}
+        if i % 2 == 1:
+            # mastery cores of one job at DIFFERENT levels (some 0, some levelled, in any order of the profile)
+            highs = list(get_skill_profile(JobType(job)).get_skill_replacements().values())
+            if len(highs) >= 2:
+                lv = {h: rng.choice([0, 0, 1, rng.randint(1, 30)]) for h in highs}
+                z = rng.randrange(len(highs))
+                lv[highs[z]] = 0
+                lv[highs[(z + 1 + rng.randrange(len(highs) - 1)) % len(highs)]] = rng.randint(1, 30)
+                cfg["hexa_mastery_skill_levels"] = lv
         axis = rng.choice([a for a in AXES if cfg[a] < AXES[a][1]] or ["v_skill_level"])
         if cfg[axis] >= AXES[axis][1]:
             cfg[axis] = AXES[axis][1] - 1
@@ -450,9 +459,12 @@ def hand_model_requests(rng, n):
         ls = list(range(0, 31))
         real = []
         for l in ls:
-            o = HexaSkillImprovementPatch(improvements={"s": l}).apply(
-                {"name": "s", "modifier": {"final_damage_multiplier": prev} if prev else {}})
-            real.append(o["modifier"].get("final_damage_multiplier", 0))
+            try:
+                o = HexaSkillImprovementPatch(improvements={"s": l}).apply(
+                    {"name": "s", "modifier": {"final_damage_multiplier": prev} if prev else {}})
+                real.append(o["modifier"].get("final_damage_multiplier", 0))
+            except Exception as e:  # noqa: BLE001  (a level of the documented range must not raise)
+                real.append(f"raised {type(e).__name__}: {e}")
         reqs.append({"fn": "levels_hexa_modifier", "prev_fd": frac_str(Fraction(prev)), "levels": ls})
         expect.append(("HexaSkillImprovementPatch.apply", real))
         scale = rng.choice([0, 1, 2, 2, 3, Fraction(1, 2)])
@@ -462,8 +474,11 @@ def hand_model_requests(rng, n):
         for l in ls:
             raw = {"name": "s", "v_improvement": float(scale) if isinstance(scale, Fraction) else scale,
                    "modifier": {k: v for k, v in (("final_damage_multiplier", pfd), ("ignored_defence", pign)) if v}}
-            o = VSkillImprovementPatch(improvements={"s": l}).apply(raw)
-            real.append([o["modifier"].get("final_damage_multiplier", 0), o["modifier"].get("ignored_defence", 0)])
+            try:
+                o = VSkillImprovementPatch(improvements={"s": l}).apply(raw)
+                real.append([o["modifier"].get("final_damage_multiplier", 0), o["modifier"].get("ignored_defence", 0)])
+            except Exception as e:  # noqa: BLE001
+                real.append(f"raised {type(e).__name__}: {e}")
         reqs.append({"fn": "levels_v", "scale": frac_str(Fraction(scale)), "prev_fd": frac_str(Fraction(pfd)),
                      "prev_ign": frac_str(Fraction(pign)), "levels": ls})
         expect.append(("VSkillImprovementPatch.apply", real))
